@@ -507,6 +507,28 @@ func check(tt *testing.T, p Plan) (pbt.Info, error) {
 			}(w)
 		}
 		wg.Wait()
+		close(errs)
+		for err := range errs {
+			debug.SetGCPercent(oldGC)
+			return info, err
+		}
+		// … and a storm of small calls: many buffer-pool Get/Put pairs per
+		// unit of time, all kinds of outcomes, pairwise distinct payloads
+		errs = make(chan error, 16*40)
+		for w := 0; w < 16; w++ {
+			wg.Add(1)
+			go func(w int) {
+				defer wg.Done()
+				for i := 0; i < 40; i++ {
+					c := CallSpec{ID: 600000 + w*100 + i, Protocol: prog.Protocols[(w+i)%3], Codec: prog.Codecs[(w/3+i)%2], Kind: prog.Unary, Send: []string{"", "gzip", ""}[i%3], NMsgs: 1, Size: 40 + (w*40+i)%400}
+					if err := verify(runCall(ctx, client(c), c), "storm of small concurrent calls"); err != nil {
+						errs <- err
+						return
+					}
+				}
+			}(w)
+		}
+		wg.Wait()
 		debug.SetGCPercent(oldGC)
 		close(errs)
 		for err := range errs {
